@@ -55,8 +55,14 @@ def run_history(ctx, pdb2sql, case, rep=None):
     import pdb2sql.transform as transform
     rng = random.Random(case['seed'])
     atoms = case['atoms']
-    db = pdb2sql.pdb2sql([gen_pdb.atom_line(a) for a in atoms])
+    db = pdb2sql.pdb2sql([gen_pdb.atom_line(a) for a in atoms], fix_chainID=bool(case.get('fix_chainID')))
     objs = [Obj('pdb2sql', db, live_tables_db(db))]
+    if case.get('fix_chainID'):
+        # chain relabelling at load (C04): sorted distinct chains -> A, B, ...
+        chains = sorted({a['chainID'] for a in atoms})
+        want = [['T', 'ABCDEFGHIJKLMNOPQRSTUVWXYZ'[chains.index(a['chainID'])]] for a in atoms]
+        if [r[4] for r in objs[0].tables[0]] != want:
+            return 'impl_vs_spec', dict(step=-1, why='fix_chainID at load did not relabel the sorted chains to A,B,...')
     reqs, outs = [], []
     try:
         for step_no, st in enumerate(case['steps']):
@@ -149,7 +155,7 @@ def run_history(ctx, pdb2sql, case, rep=None):
             for k, o in enumerate(objs):
                 now = live_tables(o)
                 if now != o.tables:
-                    return 'impl_vs_spec', dict(step=step_no, object=k, kind=o.kind, why='an object changed although the step was not addressed to it (or changed differently)',
+                    return 'impl_vs_spec', dict(step=step_no, object=k, object_kind=o.kind, why='an object changed although the step was not addressed to it (or changed differently)',
                                                 diff=first_diff(now, o.tables))
     finally:
         for o in objs:
@@ -175,7 +181,8 @@ def first_diff(a, b):
 
 def gen_case(rng):
     n = rng.randint(3, 9)
-    atoms = gen_pdb.gen_atoms(rng, n, chains=('A', 'B'))
+    fix = rng.random() < 0.3
+    atoms = gen_pdb.gen_atoms(rng, n, chains=(rng.choice([('C', 'D'), ('B', 'X'), ('A', 'B')]) if fix else ('A', 'B')))
     steps = []
     feats = set()
     derived = False
@@ -200,7 +207,9 @@ def gen_case(rng):
             kind = rng.choice(['call', 'call', 'interface', 'many', 'many_call'])
             steps.append([kind, oi, rng.choice(SELECTIONS)])
             derived = True; feats.add('derive-' + kind)
-    return {'atoms': atoms, 'steps': steps, 'seed': rng.randrange(10**6)}, feats
+    if fix:
+        feats.add('source-fix_chainID')
+    return {'atoms': atoms, 'steps': steps, 'seed': rng.randrange(10**6), 'fix_chainID': fix}, feats
 
 def explore(ctx, tier, rng, search=False):
     rep = Report()
